@@ -144,11 +144,20 @@ def forbidden_tokens():
     return bad
 
 
-def theorem_names(prop):
-    p = os.path.join(COQ, 'theories', 'Props', prop + '.v')
-    if not os.path.exists(p):
+def prop_files(prop):
+    """Props/<id>.v plus Props/<id><lowercase suffix>.v (e.g. C12.v, C12q.v)"""
+    d = os.path.join(COQ, 'theories', 'Props')
+    if not os.path.isdir(d):
         return []
-    return re.findall(r'^\s*Theorem\s+(\w+)', open(p).read(), re.M)
+    return sorted(f[:-2] for f in os.listdir(d) if re.match(r'^%s[a-z]*\.v$' % prop, f))
+
+
+def theorem_names(prop):
+    names = []
+    for f in prop_files(prop):
+        p = os.path.join(COQ, 'theories', 'Props', f + '.v')
+        names += re.findall(r'^\s*Theorem\s+(\w+)', open(p).read(), re.M)
+    return names
 
 
 def allowlist():
@@ -162,7 +171,8 @@ def print_assumptions(prop, names):
     os.makedirs(d, exist_ok=True)
     vf = os.path.join(d, 'assume_%s.v' % prop)
     with open(vf, 'w') as f:
-        f.write('From SeqIO Require Import Props.%s.\n' % prop)
+        for pf in prop_files(prop):
+            f.write('From SeqIO Require Import Props.%s.\n' % pf)
         for n in names:
             f.write('Goal True. idtac "@@%s". Abort.\nPrint Assumptions %s.\n' % (n, n))
     rc, out = run(['coqc', '-Q', os.path.join(COQ, 'theories'), 'SeqIO', vf], cwd=d, timeout=600)
